@@ -779,6 +779,8 @@ def model_lines(c):
             out.append("ext %d %s %d %s %s" % (p, EXT_IRRED[str(c.param)], RING_OPNUM[c.op], " ".join(str(i + 1) for i in i4), " ".join(str(v) for v in v4)))
         return out
     if c.dom == "poly" and c.op in POLYB_OPS:
+        if c.op == "powmod" and any("," not in str(vs[2]) for vs in (c.vals, c.alias_vals())):
+            return None         # a constant modulus: P^0 = 1 is reduced to 0 by the implementation, the model leaves 1 (model restriction)
         num = POLYB_OPS[c.op]
         k = c.extra[0] if c.extra else 0
         out = []
@@ -1748,7 +1750,13 @@ def completeness(chk, cases):
         fam_parts.setdefault(fam, set()).add((c.op, tuple(c.idx)))
         fam_cases[fam] = fam_cases.get(fam, 0) + 1
     chk.cov["families"] = {f: {"operations": len(fam_ops[f]), "operation_x_partition": len(fam_parts[f]), "cases": fam_cases[f]} for f in sorted(fam_ops)}
+    forms = {}
+    for c in cases:
+        d = forms.setdefault(DOM_FAMILY.get(c.dom, "RING"), {})
+        d[c.op] = d.get(c.op, 0) + 1
+    chk.cov["call_forms"] = {f: dict(sorted(v.items())) for f, v in sorted(forms.items())}     # per call form: cases driven in this run
     scan, forms = _load_mod("c15_scan"), _load_mod("c15_forms")
+    chk.cov["ring_domains_driven"] = sorted(set(c.dom for c in cases if DOM_FAMILY.get(c.dom, "RING") == "RING"))
     try:
         decls, nseen, err = scan.declarations(timeout=900)
     except subprocess.TimeoutExpired:
@@ -1818,14 +1826,19 @@ def main(tier, replay=None):
     chk.assumptions = ["model is hand-written after the code, statement by statement over locations; tie = correspondence on the same alias patterns",
                        "the property is relative: the oracle of an aliased call is the same call on distinct objects holding the same values "
                        "(plus an absolute python specification for rings, Integer and Rational)"]
+    import time as _time
+    t0 = _time.time()
+    phase = {}
     # 1. proofs
     res = vf.coq_check_props(AREA)
     chk.proof_result(res, AREA)
     drv, l1 = vf.ocaml_build(AREA) if os.path.exists(os.path.join(vf.coq_dir(AREA), "ocaml", "model.ml")) else (None, "extraction did not run")
     if drv is None:
         chk.broke("extracted model driver does not build", l1)
+    phase["coq+ocaml"] = round(_time.time() - t0, 1); t0 = _time.time()
     # 2. executables
     exes = build_all(chk)
+    phase["harness_build"] = round(_time.time() - t0, 1); t0 = _time.time()
     if any(b is None for b in exes.values()):
         return chk.finish()
     # 3. cases
@@ -1894,7 +1907,9 @@ def main(tier, replay=None):
         for g in EXTRA_GENERATORS:
             g(rng, exes, quick, cases)
     cases_replayed.flag = bool(replay)
+    phase["generate"] = round(_time.time() - t0, 1); t0 = _time.time()
     completeness(chk, cases)
+    phase["clang_ast"] = round(_time.time() - t0, 1); t0 = _time.time()
     # 4. run the implementation
     by_exe = {}
     for i, c in enumerate(cases):
@@ -1923,6 +1938,7 @@ def main(tier, replay=None):
                 continue
             for i, l in zip(ids, out):
                 outs[i] = l
+    phase["implementation_runs"] = round(_time.time() - t0, 1); t0 = _time.time()
     # 5. the model
     mlines, mids = [], []
     cand = [i for i, c in enumerate(cases) if drv and model_lines(c)]
@@ -1939,6 +1955,7 @@ def main(tier, replay=None):
             chk.broke("model driver failed (rc=%s, %d/%d lines)" % (rc, len(mo), len(mlines)), merr[-2000:])
         else:
             mout = {i: (mo[2 * j], mo[2 * j + 1]) for j, i in enumerate(mids)}
+    phase["model_run"] = round(_time.time() - t0, 1); t0 = _time.time()
     # 6. verdicts
     ncorr = 0
     dist_dom, dist_pat = {}, {}
@@ -2033,6 +2050,8 @@ def main(tier, replay=None):
                        "coincide) x operand values with boundary emphasis (0, 1, p-1, p/2, word limits, multi-limb); each case runs the "
                        "call on distinct objects and on the aliased objects; non-trivial = at least two positions coincide; "
                        "distinct = (domain, modulus, op, partition, values)")
+    phase["verdicts"] = round(_time.time() - t0, 1)
+    chk.cov["phase_seconds"] = phase
     chk.cov["traces_validated_against_impl"] = ncorr
     chk.cov["model_covered_cases"] = len(cand)
     chk.cov["model_stride"] = stride
